@@ -1,0 +1,17 @@
+//go:build verif
+
+// Contracts (machine-checked by /verif/engine, see /verif/DESIGN.md). Comment-only file.
+package config
+
+// ---- C37: what counts as a parameter placeholder in a Lite backend address ----------------------------------------------
+// A backend address that does not parse is tolerated by validation only when it contains a placeholder "$<digits>" (at
+// least one digit): the test is the regular expression \$\d+ applied to the address itself.
+//@ func containsParameters
+//@   props C37
+//@   at-call regexp.MatchString as m: assert [placeholder-is-dollar-and-at-least-one-digit] streq(arg0, "\\$\\d+") && streq(arg1, s)
+//@   ensures [answer-is-the-match] called(m) && result == res(m, 0)
+//@ func extractParameterIndices
+//@   props C37
+//@   checks panic
+//@   at-call MustCompile as re: assert [index-is-at-least-one-digit] streq(arg0, "\\$(\\d+)")
+//@   at-call FindAllStringSubmatch as fa: assert called(re) && arg0 == res(re) && streq(arg1, s) && arg2 == -1
